@@ -140,7 +140,9 @@ def table_value(draw):
             else:
                 cells.append(draw(scalar_literal("bool")))
         cols.append({"name": f"c{c}" + draw(st.sampled_from(["", "x", "_t"])), "type": t, "unit": unit, "cells": cells})
-    return {"form": "table", "cols": cols}
+    # blank lines (or lines of blanks) between the rows do not belong to the table
+    gaps = draw(st.lists(st.sampled_from([0, 0, 0, 0, 1, 2, "ws"]), min_size=nrow, max_size=nrow))
+    return {"form": "table", "cols": cols, "gaps": gaps}
 
 
 @st.composite
@@ -277,7 +279,12 @@ def render_value(t, v):
         for c in v["cols"]:
             head.append(f"{c['name']} {c['type']}" + (f" {c['unit']}" if c["unit"] else ""))
         nrow = len(v["cols"][0]["cells"])
-        rows = [" ".join(c["cells"][r]["text"] for c in v["cols"]) for r in range(nrow)]
+        rows = []
+        for r in range(nrow):
+            rows.append(" ".join(c["cells"][r]["text"] for c in v["cols"]))
+            g = (v.get("gaps") or [0] * nrow)[r]
+            if r < nrow - 1:
+                rows += ["   "] if g == "ws" else [""] * g
         return ['"""'] + head + [""] + rows + ['"""']
     raise AssertionError(f)
 
